@@ -211,7 +211,19 @@ func (l *mbLib) iterStateFields(im *mbImpl) map[string]bool {
 		recv := mbRecvObj(l.info, fd)
 		ast.Inspect(fd.Body, func(n ast.Node) bool {
 			if sel, ok := n.(*ast.SelectorExpr); ok {
+				// a method of the same value type, selected on the receiver itself or on any
+				// other expression of that type (a fresh copy the iterator is bound to)
+				onSelf := false
 				if id, ok := sel.X.(*ast.Ident); ok && recv != nil && l.info.Uses[id] == recv {
+					onSelf = true
+				}
+				sameType := false
+				if sl, ok := l.info.Selections[sel]; ok && sl.Kind() == types.MethodVal && recv != nil {
+					if a, b := recvNamed(sl.Recv()), recvNamed(recv.Type()); a != nil && a == b {
+						sameType = true
+					}
+				}
+				if onSelf || sameType {
 					if m := im.methods[sel.Sel.Name]; m != nil && !iterMethods[sel.Sel.Name] {
 						iterMethods[sel.Sel.Name] = true
 						visit(m)
